@@ -133,10 +133,9 @@ def localeNames (env : Env) (langs locales : List String) (region : Option Strin
     if givenOrder then locales else
       (locales.zipIdx.toArray.qsort (fun a b => key a.1 < key b.1 || (key a.1 == key b.1 && a.2 < b.2))).toList.map (·.1)
   else
-    let ls := if givenOrder then langs else env.order.filter (fun l => langs.contains l)
-    match region with
-    | none => ls
-    | some rg => ls.map (fun l => let cand := l ++ "-" ++ rg; if ((env.localesOf.get? l).getD []).contains cand then cand else l)
+    -- `languages` (+ `region`): the loader model of DPModel/DP/Loader.lean (proved in DPProofs/C13Loader.lean)
+    let E : Loader.Env := { order := env.order, localesOf := fun l => (env.localesOf.get? l).getD [] }
+    (Loader.loadPairs E langs (region.getD "") givenOrder).map (·.1)
 
 def handleGdd (env : Env) (cache : IO.Ref Cache) (j : Json) : IO Json := do
   let st := settingsOf env.T j
